@@ -129,6 +129,11 @@ func Gen(t *tape.Tape, base string, o Opts) *Layout {
 	l.Secrets[base+"/outside/secret"] = `"SECRET-MARKER-2"`
 	l.Secrets["/etc/sim/secret.arrai"] = `"SECRET-MARKER-3"`
 	l.Secrets[path.Dir(l.Top)+"/sibling.arrai"] = `"SECRET-MARKER-4"`
+	// siblings whose names merely begin like the module root / the main file's directory
+	l.Secrets[l.Top+"-secret/x.arrai"] = `"SECRET-MARKER-5"`
+	for i, m := range l.Mains {
+		l.Secrets[m.Dir()+"-secret/x.arrai"] = fmt.Sprintf(`"SECRET-MARKER-6%d"`, i)
+	}
 	return l
 }
 
